@@ -11,7 +11,7 @@ import numpy as np
 from collections import OrderedDict
 import functools
 
-from ._files import PseudoNetCDFFile, _getncattr
+from ._files import PseudoNetCDFFile, _getncattr, _valuetype
 from ._variables import PseudoNetCDFMaskedVariable, PseudoNetCDFVariable
 
 # Functions to be available for pncexpr
@@ -29,6 +29,8 @@ else:
 _metakeys = ['time', 'layer', 'level', 'latitude', 'longitude',
              'time_bounds', 'latitude_bounds', 'longitude_bounds',
              'ROW', 'COL', 'LAY', 'TFLAG', 'ETFLAG']
+
+
 
 
 def pncrename(ifile, type_old_new):
@@ -84,7 +86,7 @@ def removesingleton(f, rd, coordkeys=None):
         sdims = tuple([dk for dk in enumerate(v.dimensions)
                        if dk[1] not in outf.dimensions])[::-1]
         propd = dict([(pk, _getncattr(v, pk)) for pk in v.ncattrs()])
-        ov = outf.createVariable(vk, v.dtype.char, dims, **propd)
+        ov = outf.createVariable(vk, _valuetype(v), dims, **propd)
         outvals = v[...]
         for di, dk in sdims:
             outvals = outvals.take(0, axis=di)
@@ -157,7 +159,7 @@ def getvarpnc(f, varkeys, coordkeys=None, copy=True):
         vals = var[...]
         if copy:
             vals = vals.copy()
-        outf.createVariable(varkey, var.dtype.char,
+        outf.createVariable(varkey, _valuetype(var),
                             var.dimensions, values=vals, **propd)
     for coordkey in coordkeys:
         if coordkey in f.variables.keys():
@@ -168,7 +170,7 @@ def getvarpnc(f, varkeys, coordkeys=None, copy=True):
             if copy:
                 # like the data variables above
                 coordvals = coordvals.copy()
-            outf.createVariable(coordkey, coordvar.dtype.char,
+            outf.createVariable(coordkey, _valuetype(coordvar),
                                 coordvar.dimensions,
                                 values=coordvals, **propd)
             for dk in coordvar.dimensions:
@@ -207,7 +209,7 @@ def interpvars(f, weights, dimension, loginterp=[]):
             else:
                 kwds = dict()
             newvar = outf.createVariable(
-                vark, oldvar.dtype.char, oldvar.dimensions, **kwds)
+                vark, _valuetype(oldvar), oldvar.dimensions, **kwds)
             for ak in oldvar.ncattrs():
                 setattr(newvar, ak, _getncattr(oldvar, ak))
             if len(weights.shape) <= len(oldvar.dimensions):
@@ -437,7 +439,7 @@ def extract_lonlat(f, lonlat, unique=False, gridded=None, method='nn',
 
             propd = dict([(ak, _getncattr(v, ak)) for ak in v.ncattrs()])
             nv = outf.createVariable(
-                k, v.dtype.char, newdims, values=newv, **propd)
+                k, _valuetype(v), newdims, values=newv, **propd)
             setattr(nv, 'coordinates', getattr(
                 v, 'coordinates', ' '.join(coords)))
             for di, dk in enumerate(newdims):
@@ -462,7 +464,7 @@ def mask_vals(f, maskdef, metakeys=_metakeys):
             try:
                 vout = eval(maskexpr)
                 f.variables[varkey] = PseudoNetCDFMaskedVariable(
-                    f, varkey, var.dtype.char, var.dimensions, values=vout,
+                    f, varkey, _valuetype(var), var.dimensions, values=vout,
                     **dict([(pk, _getncattr(var, pk))
                             for pk in var.ncattrs()]))
             except Exception as e:
@@ -526,7 +528,7 @@ def slice_dim(f, slicedef, fuzzydim=True):
             if not hasattr(vout, 'ncattrs'):
                 # the variable of a file on disk hands out a plain array
                 vout = outf.createVariable(
-                    varkey, var.dtype.char, var.dimensions, values=vout,
+                    varkey, _valuetype(var), var.dimensions, values=vout,
                     **dict([(pk, var.getncattr(pk)) for pk in var.ncattrs()
                             if pk != '_FillValue']))
             outf.variables[varkey] = vout
@@ -687,7 +689,7 @@ def reduce_dim(f, reducedef, fuzzydim=True, metakeys=_metakeys):
             outdim = outf.createDimension(dimkey, vout.shape[axis])
             outdim.setunlimited(inf.dimensions[dimkey].isunlimited())
         nvar = outf.variables[varkey] = PseudoNetCDFMaskedVariable(
-            outf, varkey, var.dtype.char, var.dimensions, values=vout)
+            outf, varkey, _valuetype(var), var.dimensions, values=vout)
         for k in var.ncattrs():
             setattr(nvar, k, _getncattr(var, k))
 
@@ -776,7 +778,7 @@ def pncbo(op, ifile1, ifile2, coordkeys=None, verbose=0):
             outval = np.ma.masked_where(
                 ~np.isfinite(np.ma.getdata(outval)), outval)
             outvar = tmpfile.createVariable(
-                k, in1var.dtype.char, in1var.dimensions, fill_value=-999,
+                k, _valuetype(in1var), in1var.dimensions, fill_value=-999,
                 values=outval)
             outvar.setncatts(propd)
     return tmpfile
@@ -1009,7 +1011,7 @@ def merge(fs):
             else:
                 propd = dict([(p, _getncattr(v, p)) for p in v.ncattrs()])
                 outf.createVariable(
-                    k, v.dtype.char, v.dimensions, values=v, **propd)
+                    k, _valuetype(v), v.dimensions, values=v, **propd)
 
     return outf
 
@@ -1096,7 +1098,7 @@ def splitdim(inf, olddim, newdims, newshape):
                     outdims.append(dk)
                     outshape.append(len(inf.dimensions[dk]))
 
-            outvar = outf.createVariable(vk, invar.dtype.char, tuple(outdims))
+            outvar = outf.createVariable(vk, _valuetype(invar), tuple(outdims))
             p2n.addVariableProperties(invar, outvar)
             outvar[:] = invar[:].reshape(*outshape)
         else:
